@@ -277,7 +277,7 @@ pub fn run(a: &Args, m: &mut Mon) {
     }
     m.extra.insert("borsh_feature_enabled".into(), json!(cfg!(feature = "borsh")));
     let mut r = Rng::lane(a.seed, "C18", a.shard, if cfg!(feature = "borsh") { 1 } else { 0 });
-    let n = a.n(1_600, 80_000);
+    let n = a.n(5_000, 250_000);
     for _ in 0..n {
         macro_rules! fam {
             ($t:ident) => {
